@@ -336,7 +336,7 @@ IM_THEOREMS = ['IM.delivery_safe', 'IM.fifo_consumption', 'IM.happened_before', 
                'IM.fs_is_gen', 'IM.ffs_is_gen', 'IM.downsize_is_gen', 'IM.endPos_is_gen', 'IM.single_is_gen', 'IM.want_is_gen']
 PROPS['C02'] = {
     'modules': ['IpcModel.Props.C02'],
-    'theorems': ['C02.C02_whole', 'C02.C02_once_ordered', 'C02.C02_ok_in_order', 'C02.C02_hb', 'C02.C02_whole_with_attachments'] + IM_THEOREMS,
+    'theorems': ['C02.C02_whole', 'C02.C02_once_ordered', 'C02.C02_ok_in_order', 'C02.C02_hb', 'C02.C02_whole_with_attachments', 'C02.C02_shape_followups_blocking'] + IM_THEOREMS,
     'scenarios': sched_scen(480, 12000),
     'search': search_sched,
     'rule': ('1..3 real sender threads x 1..2 messages each (sizes around the packet boundaries, 1..4 packets) and a real receiver thread, every sendmsg/send/'
